@@ -17,7 +17,7 @@ ASSUMPTIONS = [
     "case variants are exercised through the stream entry points (HashStreamFile, get_hash_stream, fobj_md5, file_md5)",
 ]
 MONITORS = "digest / passthrough bytes / byte count compared with hashlib on every evaluation"
-REQUIRED_COUNTERS = ["short_read_streams", "stream_checks", "fobj_md5_checks", "hash_file_checks", "dos2unix_variant_checks", "memfs_checks"]
+REQUIRED_COUNTERS = ["interleaved_stream_pairs", "short_read_streams", "stream_checks", "fobj_md5_checks", "hash_file_checks", "dos2unix_variant_checks", "memfs_checks"]
 
 PLAIN = ["md5", "sha1", "sha256", "sha512", "blake3", "sha224", "sha384"]
 VARIANTS = ["MD5", "Md5", "SHA256", "Sha256", "BLAKE3", "Blake3", "SHA1", "sHa512"]
@@ -213,6 +213,24 @@ def run_shard(ctx):
                     else:
                         os.unlink(path)
 
+            # two hashing streams alive at the same time in one thread must not share any state
+            if rng.random() < 0.3:
+                res.evaluated()
+                res.count("interleaved_stream_pairs")
+                name2 = rng.choice(PLAIN + VARIANTS)
+                other = gen.content(rng, big=0.0) + b"-other"
+                s1, s2 = HashStreamFile(io.BytesIO(data), name2), HashStreamFile(io.BytesIO(other), name2)
+                o1, o2 = bytearray(), bytearray()
+                while True:
+                    b1, b2 = s1.read(rng.choice([1, 64, 4096])), s2.read(rng.choice([1, 64, 4096]))
+                    o1 += b1
+                    o2 += b2
+                    if not b1 and not b2:
+                        break
+                if rng.random() < 0.5:
+                    _ = fobj_md5(io.BytesIO(b"nested " + other), name=name2)  # a third computation in between
+                if s1.hash_value != H(name2.lower(), data) or s2.hash_value != H(name2.lower(), other) or bytes(o1) != data or bytes(o2) != other:
+                    bad("interleaved-streams-interfere", f"two {name2} streams read alternately give wrong digests/bytes", case, algo=name2, len1=len(data), len2=len(other))
             # CRLF/LF variants of a text that fits in one read; binary untouched
             if len(data) <= 2**20:
                 res.evaluated()
